@@ -30,11 +30,25 @@ def gen_config(rng, max_res=10):
     nb, npx = rng.randint(1, max_res), rng.randint(1, max_res)
     b0 = rng.choice((0.0, 0.0, -1.0, 0.5))
     p0 = rng.choice((0.0, 0.0, 0.0, -0.5 * p))
-    return {
+    cfg = {
         "birth_range": [b0, b0 + nb * p], "pers_range": [p0, p0 + npx * p], "pixel_size": p,
         "kernel": rng.choice(KERNELS), "weight": rng.choice(WEIGHTS),
         "var": rng.choice((1.0, 0.05, 0.3, p * p, 4.0)), "rho": rng.choice((0.5, -0.3, 0.2, 0.8)),
     }
+    r = rng.random()
+    if r < 0.08:
+        # data in tiny units (everything scaled by 1e-9; variance by its square)
+        u = 1e-9
+        cfg["birth_range"] = [x * u for x in cfg["birth_range"]]
+        cfg["pers_range"] = [x * u for x in cfg["pers_range"]]
+        cfg["pixel_size"] = p * u
+        cfg["var"] = cfg["var"] * u * u
+        cfg["unit"] = u
+    elif r < 0.16:
+        # births with a large common offset relative to the pixel size
+        off = rng.choice((2e4, 1e3, 5e5)) * p
+        cfg["birth_range"] = [cfg["birth_range"][0] + off, cfg["birth_range"][0] + off + nb * p]
+    return cfg
 
 
 def kernel_of(cfg):
@@ -63,12 +77,13 @@ def weight_of(cfg):
         return "persistence", {"n": 1.0}
     if w == "persistence-n2":
         return "persistence", {"n": 2.0}
+    u = float(cfg.get("unit", 1.0))
     if w == "linear_ramp":
-        return "linear_ramp", {"low": 0.5, "high": 2.0, "start": 0.1, "end": 1.0}
+        return "linear_ramp", {"low": 0.5, "high": 2.0, "start": 0.1 * u, "end": 1.0 * u}
     if w == "ramp-zero-below":
-        return "linear_ramp", {"low": 0.0, "high": 1.0, "start": 0.3, "end": 0.8}
+        return "linear_ramp", {"low": 0.0, "high": 1.0, "start": 0.3 * u, "end": 0.8 * u}
     if w == "ramp-int-params":       # the parameters as Python ints, as in the documentation's examples
-        return "linear_ramp", {"low": 0, "high": 2, "start": 0, "end": 1}
+        return "linear_ramp", {"low": 0, "high": 2, "start": 0, "end": 1 if u == 1.0 else u}
     if w == "user":
         return saturating_weight, {"a": 1.5}
     if w == "lambda":
